@@ -961,17 +961,12 @@ static uint64_t gen_chunk(uint64_t vol) {
 }
 static std::string wg(int fd, uint64_t vol) { return w(fd, vol, gen_chunk(vol)); }
 
-// Reported defect, kept out of the generator until it is decided: when TWO OR MORE of the caller's descriptors 0 / 1 / 2 are closed, the
+// Repaired defect (kept as a generated class): when TWO OR MORE of the caller's descriptors 0 / 1 / 2 were closed, the
 // parent's own pipe ends land on the numbers 1 / 2 and Subprocess's child branch closes them AFTER it has installed the child's
 // stdout / stderr there with dup2 - the child runs without stdout and/or stderr (output lost; communicate can then wait for ever).
-static const char* const kMultiClosedExclusion = "caller with two or more of its descriptors 0/1/2 closed (reported defect: the child starts without stdout and/or stderr)";
 static uint64_t gen_closed_mask() {
-  uint64_t mask = vg::pick<uint64_t>({1, 1, 1, 2, 4, 3, 5, 6, 7});
-  if (mask & (mask - 1)) {
-    ctx().exclude(kMultiClosedExclusion);
-    mask &= ~(mask - 1); // lowest descriptor of the set only
-  }
-  return mask;
+  // two or more closed descriptors used to make the child start without stdout and/or stderr (repaired in /repo)
+  return vg::pick<uint64_t>({1, 1, 1, 2, 4, 3, 5, 6, 7});
 }
 
 static Case gen_subprocess() {
@@ -1223,10 +1218,6 @@ static void enum_grid(Enum& e) {
     }
     for (uint64_t mask = 1; mask < 8; mask++) {
       // the caller itself has some of its descriptors 0 / 1 / 2 closed: cat with more than a pipe's worth, something on stderr, status 3
-      if (mask & (mask - 1)) {
-        if (e.mine(idx++)) ctx().exclude(kMultiClosedExclusion);
-        continue;
-      }
       Draft d;
       d.api = v.api;
       d.flags = (v.flags & ~static_cast<uint64_t>(FL_CHECK)) | closed_fds_flag(mask);
